@@ -169,8 +169,7 @@ Definition nonnegb (o : option Q) : bool := match o with Some q => Qle_bool 0 q 
 (* the record (Z, A) serves: complex b_c consistent with b_c and absorption (C07), absorption >= 0;
    or a non-empty table with positive energies and Im b <= 0; or (natural Lu) the same for Lu-175,
    Lu-176 and non-negative abundances *)
-Definition rec_okb (D : ndata) (z a : Z) : bool :=
-  let r := nd_rec D z a in
+Definition rec_okb_r (D : ndata) (r : nrec) : bool :=
   match r_tab r with
   | None => (bcc_ok r && abs_nonnegb r)%bool
   | Some (ETab rows) => tab_okb rows
@@ -180,6 +179,7 @@ Definition rec_okb (D : ndata) (z a : Z) : bool :=
        && match r_tab (nd_rec D (nd_lu D) 176) with Some (ETab rows) => tab_okb rows | _ => false end
        && nonnegb (nd_abund D (nd_lu D) 175) && nonnegb (nd_abund D (nd_lu D) 176))%bool
   end.
+Definition rec_okb (D : ndata) (z a : Z) : bool := rec_okb_r D (nd_rec D z a).
 
 Lemma rows_posb_ok : forall rows, rows_posb rows = true -> rows_pos rows.
 Proof.
@@ -298,3 +298,276 @@ Section ModelInterp.
       apply (locate_from_sound r e0 re0 im0 H2).
   Qed.
 End ModelInterp.
+
+(* ------------------------------------------------------------------ scattering_by_wavelength *)
+Lemma sigma_s_cabs2 : forall re im,
+  ev (EMul FOURPI_100 (cabs2 re im)) = sigma_s_of_b (ev re) (ev im).
+Proof.
+  intros re im. unfold cabs2. cbn [evalR]. rewrite ev_FOURPI_100. unfold sigma_s_of_b, fm2_per_barn.
+  rewrite sqrt_sqrt by nra. field.
+Qed.
+
+(* natural Lu: the table built by energy_dependent_init is the affine image of the Lu-176 table *)
+Lemma lu_nodes_re : forall re175 im175 a175 a176 rows,
+  re_nodes_R (map (fun r => match r with
+                            | (e, re, im) => (e, Qred ((re175 * a175 + re * a176) / 100),
+                                                 Qred ((im175 * a175 + im * a176) / 100))
+                            end) rows)
+  = map (fun p => (fst p, Q2R re175 * Q2R a175 / 100 + Q2R a176 / 100 * snd p)) (re_nodes_R rows).
+Proof.
+  intros. induction rows as [|[[e re] im] r IH]; [reflexivity|].
+  cbn [map re_nodes_R fst snd]. fold (re_nodes_R r). unfold re_nodes_R in IH. rewrite IH. f_equal. f_equal.
+  rewrite Q2R_Qred, Q2R_div', Q2R_plus, !Q2R_mult.
+  - replace (Q2R 100) with 100 by (unfold Q2R; cbn [Qnum Qden]; lra). field.
+  - replace (Q2R 100) with 100 by (unfold Q2R; cbn [Qnum Qden]; lra). lra.
+Qed.
+Lemma lu_nodes_im : forall re175 im175 a175 a176 rows,
+  im_nodes_R (map (fun r => match r with
+                            | (e, re, im) => (e, Qred ((re175 * a175 + re * a176) / 100),
+                                                 Qred ((im175 * a175 + im * a176) / 100))
+                            end) rows)
+  = map (fun p => (fst p, Q2R im175 * Q2R a175 / 100 + Q2R a176 / 100 * snd p)) (im_nodes_R rows).
+Proof.
+  intros. induction rows as [|[[e re] im] r IH]; [reflexivity|].
+  cbn [map im_nodes_R fst snd]. fold (im_nodes_R r). unfold im_nodes_R in IH. rewrite IH. f_equal. f_equal.
+  rewrite Q2R_Qred, Q2R_div', Q2R_plus, !Q2R_mult.
+  - replace (Q2R 100) with 100 by (unfold Q2R; cbn [Qnum Qden]; lra). field.
+  - replace (Q2R 100) with 100 by (unfold Q2R; cbn [Qnum Qden]; lra). lra.
+Qed.
+
+Lemma rows_pos_map : forall (f : erow -> erow) rows, (forall r, fst (fst (f r)) = fst (fst r)) ->
+  rows_pos rows -> rows_pos (map f rows).
+Proof.
+  intros f rows Hf H. unfold rows_pos in *. rewrite Forall_forall in *. intros r Hin.
+  apply in_map_iff in Hin. destruct Hin as (r0 & E & Hin). subst r. rewrite Hf. exact (H r0 Hin).
+Qed.
+
+Lemma bcc_ok_parts : forall r, bcc_ok r = true ->
+  exists ab re im, r_abs r = Some ab /\ r_bcc r = Some (re, im) /\
+                   Q2R im = im_of_absorption (Q2R ab) /\ num_same (r_bc r) re.
+Proof.
+  intros r H. destruct (bcc_ok_sound r H) as (ab & re & im & H1 & H2 & H3 & H4).
+  exists ab, re, im. repeat split; try assumption. apply Q2R_2000_lambda0. exact H3.
+Qed.
+
+(* one kind of atom: the piece the model sums is the documented per-atom quantity *)
+Theorem atom_piece_refines : forall D w p c, wl_pos w ->
+  rec_okb D (az (fst p)) (aa (fst p)) = true ->
+  atom_piece D w p = Some c -> tab_comp D w p = Some (evalC c).
+Proof.
+  intros D w [a n] c Hw Hok H. unfold atom_piece in H. cbn [fst snd] in *.
+  destruct (scattering_by_wavelength D (az a) (aa a) w) as [[[re im] ss]|] eqn:Es; [|discriminate].
+  cbn [bind fst snd] in H. inversion H; subst c. clear H.
+  unfold tab_comp. cbn [fst snd]. unfold evalC. cbn [ce_n ce_m ce_re ce_im ce_ss]. rewrite Q2R_Qred.
+  unfold scattering_by_wavelength, rows_of in Es. unfold rec_okb, rec_okb_r in Hok.
+  destruct (r_tab (nd_rec D (az a) (aa a))) as [[rows|]|].
+  - (* own table *)
+    cbn [bind] in Es. destruct (tab_okb_ok rows Hok) as (Hne & Hp & _).
+    destruct (locate (wl_en w) rows) as [s|] eqn:El; [|discriminate]. cbn [bind] in Es.
+    inversion Es; subst re im ss. clear Es.
+    destruct (locate_sound w Hw rows s Hp El) as [Hre Him].
+    rewrite sigma_s_cabs2, Hre, Him. reflexivity.
+  - (* natural Lu *)
+    apply andb_prop in Hok. destruct Hok as [Hok Ha176]. apply andb_prop in Hok. destruct Hok as [Hok Ha175].
+    apply andb_prop in Hok. destruct Hok as [Hok Ht]. apply andb_prop in Hok. destruct Hok as [Hbcc Habs].
+    destruct (bcc_ok_parts _ Hbcc) as (ab & re' & im' & H1 & H2 & H3 & H4).
+    unfold lu_rows in Es. rewrite H2 in Es.
+    destruct re' as [[re175|?|?]|]; try discriminate.
+    destruct (r_tab (nd_rec D (nd_lu D) 176)) as [[rows|]|]; try discriminate.
+    destruct (nd_abund D (nd_lu D) 175) as [a175|]; [|discriminate].
+    destruct (nd_abund D (nd_lu D) 176) as [a176|]; [|discriminate].
+    cbn [bind] in Es. destruct (tab_okb_ok rows Ht) as (Hne & Hp & _).
+    match type of Es with context [locate _ ?m] => set (mix := m) in Es end.
+    destruct (locate (wl_en w) mix) as [s|] eqn:El; [|discriminate]. cbn [bind] in Es.
+    inversion Es; subst re im ss. clear Es.
+    assert (Hpm : rows_pos mix).
+    { unfold mix. apply rows_pos_map; [|exact Hp]. intros [[e r1] i1]. reflexivity. }
+    destruct (locate_sound w Hw mix s Hpm El) as [Hre Him].
+    rewrite sigma_s_cabs2, Hre, Him. unfold mix. rewrite lu_nodes_re, lu_nodes_im.
+    assert (Hn1 : re_nodes_R rows <> []) by (destruct rows; [congruence|discriminate]).
+    assert (Hn2 : im_nodes_R rows <> []) by (destruct rows; [congruence|discriminate]).
+    rewrite !interp_affine by assumption.
+    destruct (r_bc (nd_rec D (nd_lu D) 175)) as [b|] eqn:Eb; [|contradiction].
+    rewrite H1. rewrite (num_same_R _ _ H4). cbn [num_R]. rewrite <- H3.
+    unfold abundance_mix.
+    replace (Q2R re175 * Q2R a175 / 100 + Q2R a176 / 100 * interp (wl_R w) (re_nodes_R rows))
+      with ((Q2R re175 * Q2R a175 + interp (wl_R w) (re_nodes_R rows) * Q2R a176) / 100) by field.
+    replace (Q2R im' * Q2R a175 / 100 + Q2R a176 / 100 * interp (wl_R w) (im_nodes_R rows))
+      with ((Q2R im' * Q2R a175 + interp (wl_R w) (im_nodes_R rows) * Q2R a176) / 100) by field.
+    reflexivity.
+  - (* tabulated b_c, absorption, total *)
+    cbn [bind] in Es. apply andb_prop in Hok. destruct Hok as [Hbcc Habs].
+    destruct (bcc_ok_parts _ Hbcc) as (ab & re' & im' & H1 & H2 & H3 & H4).
+    rewrite H2 in Es. destruct re' as [re'|]; [|discriminate].
+    destruct (r_tot (nd_rec D (az a) (aa a))) as [t|]; [|discriminate].
+    inversion Es; subst re im ss. clear Es.
+    destruct (r_bc (nd_rec D (az a) (aa a))) as [b|]; [|contradiction].
+    rewrite H1, !ev_num_expr, ev_cq, H3, (num_same_R _ _ H4). reflexivity.
+Qed.
+
+(* ------------------------------------------------------------------ bounds of an interpolated value *)
+Lemma interp_from_le : forall M rest x x0 y0, x0 <= x -> y0 <= M ->
+  (forall p, In p rest -> snd p <= M) -> interp_from x x0 y0 rest <= M.
+Proof.
+  intros M. induction rest as [|[x1 y1] r IH]; intros x x0 y0 Hx Hy Hall; cbn [interp_from]; [exact Hy|].
+  assert (Hy1 : y1 <= M) by (apply (Hall (x1, y1)); left; reflexivity).
+  destruct (Rlt_dec x x1) as [Hlt|Hge].
+  - set (t := (x - x0) / (x1 - x0)).
+    assert (Ht : t * (x1 - x0) = x - x0) by (unfold t; field; lra).
+    assert (0 <= t) by (unfold t; apply Rmult_le_pos; [lra|]; left; apply Rinv_0_lt_compat; lra).
+    assert (t <= 1) by nra.
+    nra.
+  - apply IH; [lra|exact Hy1|]. intros p Hin. apply Hall. right. exact Hin.
+Qed.
+Lemma interp_le : forall M t x, t <> [] -> (forall p, In p t -> snd p <= M) -> interp x t <= M.
+Proof.
+  intros M [|[x0 y0] r] x Hne Hall; [congruence|]. cbn [interp].
+  assert (y0 <= M) by (apply (Hall (x0, y0)); left; reflexivity).
+  destruct (Rle_dec x x0); [assumption|].
+  apply interp_from_le; [lra|assumption|]. intros p Hin. apply Hall. right. exact Hin.
+Qed.
+
+Lemma im_nodes_nonpos : forall rows, (forall r, In r rows -> Q2R (snd r) <= 0) ->
+  forall p, In p (im_nodes_R rows) -> snd p <= 0.
+Proof.
+  intros rows H p Hin. unfold im_nodes_R in Hin. apply in_map_iff in Hin.
+  destruct Hin as ([[e re] im] & E & Hin). subst p. cbn [snd]. exact (H _ Hin).
+Qed.
+
+Lemma im_of_absorption_nonpos : forall ab, 0 <= ab -> im_of_absorption ab <= 0.
+Proof.
+  intros ab H. unfold im_of_absorption, lambda_0.
+  assert (0 <= ab / (1000 * 2 * (1798 / 1000))).
+  { apply Rmult_le_pos; [exact H|]. left. apply Rinv_0_lt_compat. lra. }
+  unfold Rdiv in *. rewrite Ropp_mult_distr_l_reverse. lra.
+Qed.
+
+Lemma abs_nonnegb_ok : forall r ab, abs_nonnegb r = true -> r_abs r = Some ab -> 0 <= Q2R ab.
+Proof.
+  intros r ab H E. unfold abs_nonnegb in H. rewrite E in H. apply Qle_bool_Rle in H.
+  rewrite RMicromega.Q2R_0 in H. exact H.
+Qed.
+Lemma nonnegb_ok : forall q, nonnegb (Some q) = true -> 0 <= Q2R q.
+Proof. intros q H. cbn [nonnegb] in H. apply Qle_bool_Rle in H. rewrite RMicromega.Q2R_0 in H. exact H. Qed.
+
+(* count, mass and sign of Im b_c of a documented per-atom record *)
+Theorem tab_comp_facts : forall D w p c, rec_okb D (az (fst p)) (aa (fst p)) = true ->
+  tab_comp D w p = Some c ->
+  c_n c = Q2R (snd p) /\ c_m c = Q2R (e_mass (nd_env D) (fst p)) /\ c_im c <= 0.
+Proof.
+  intros D w [a n] c Hok H. unfold tab_comp in H. unfold rec_okb, rec_okb_r in Hok. cbn [fst snd] in *.
+  destruct (r_tab (nd_rec D (az a) (aa a))) as [[rows|]|].
+  - inversion H; subst c. cbn [c_n c_m c_im]. repeat split.
+    destruct (tab_okb_ok rows Hok) as (Hne & _ & Him).
+    apply interp_le; [destruct rows; [congruence|discriminate]|]. apply im_nodes_nonpos. exact Him.
+  - apply andb_prop in Hok. destruct Hok as [Hok Ha176]. apply andb_prop in Hok. destruct Hok as [Hok Ha175].
+    apply andb_prop in Hok. destruct Hok as [Hok Ht]. apply andb_prop in Hok. destruct Hok as [Hbcc Habs].
+    destruct (r_bc (nd_rec D (nd_lu D) 175)) as [b|]; [|discriminate].
+    destruct (r_abs (nd_rec D (nd_lu D) 175)) as [ab|] eqn:Eab; [|discriminate].
+    destruct (r_tab (nd_rec D (nd_lu D) 176)) as [[rows|]|]; try discriminate.
+    destruct (nd_abund D (nd_lu D) 175) as [a175|]; [|discriminate].
+    destruct (nd_abund D (nd_lu D) 176) as [a176|]; [|discriminate].
+    inversion H; subst c. cbn [c_n c_m c_im]. repeat split.
+    destruct (tab_okb_ok rows Ht) as (Hne & _ & Him).
+    assert (H176 : interp (wl_R w) (im_nodes_R rows) <= 0).
+    { apply interp_le; [destruct rows; [congruence|discriminate]|]. apply im_nodes_nonpos. exact Him. }
+    assert (H175 : im_of_absorption (Q2R ab) <= 0).
+    { apply im_of_absorption_nonpos. exact (abs_nonnegb_ok _ _ Habs Eab). }
+    pose proof (nonnegb_ok _ Ha175). pose proof (nonnegb_ok _ Ha176).
+    unfold abundance_mix. nra.
+  - apply andb_prop in Hok. destruct Hok as [Hbcc Habs].
+    destruct (r_bc (nd_rec D (az a) (aa a))) as [b|]; [|discriminate].
+    destruct (r_abs (nd_rec D (az a) (aa a))) as [ab|] eqn:Eab; [|discriminate].
+    destruct (r_tot (nd_rec D (az a) (aa a))) as [t|]; [|discriminate].
+    inversion H; subst c. cbn [c_n c_m c_im]. repeat split.
+    apply im_of_absorption_nonpos. exact (abs_nonnegb_ok _ _ Habs Eab).
+Qed.
+
+(* ------------------------------------------------------------------ lists of options *)
+Lemma all_some_map_rel : forall {A B C} (f : A -> option B) (g : A -> option C) (h : B -> C) d ps,
+  all_some (map f d) = Some ps ->
+  (forall p c, In p d -> f p = Some c -> g p = Some (h c)) ->
+  all_some (map g d) = Some (map h ps).
+Proof.
+  intros A B C f g h. induction d as [|p r IH]; intros ps H Hrel; cbn [map all_some] in *.
+  - inversion H. reflexivity.
+  - destruct (f p) as [c|] eqn:Ef; [|discriminate].
+    destruct (all_some (map f r)) as [ps'|] eqn:Er; [|discriminate]. inversion H; subst ps.
+    rewrite (Hrel p c (or_introl eq_refl) Ef).
+    rewrite (IH ps' eq_refl (fun p0 c0 Hin => Hrel p0 c0 (or_intror Hin))). reflexivity.
+Qed.
+Lemma all_some_in : forall {A B} (g : A -> option B) d l, all_some (map g d) = Some l ->
+  forall c, In c l -> exists p, In p d /\ g p = Some c.
+Proof.
+  intros A B g. induction d as [|p r IH]; intros l H c Hin; cbn [map all_some] in H.
+  - inversion H; subst l. destruct Hin.
+  - destruct (g p) as [c0|] eqn:Eg; [|discriminate].
+    destruct (all_some (map g r)) as [l'|] eqn:Er; [|discriminate]. inversion H; subst l.
+    destruct Hin as [E|Hin].
+    + subst c0. exists p. split; [left; reflexivity|exact Eg].
+    + destruct (IH l' eq_refl c Hin) as (p0 & Hp0 & Hg). exists p0. split; [right; exact Hp0|exact Hg].
+Qed.
+Lemma all_some_length : forall {A B} (g : A -> option B) d l, all_some (map g d) = Some l -> length l = length d.
+Proof.
+  intros A B g. induction d as [|p r IH]; intros l H; cbn [map all_some] in H.
+  - inversion H. reflexivity.
+  - destruct (g p); [|discriminate]. destruct (all_some (map g r)) as [l'|] eqn:Er; [|discriminate].
+    inversion H; subst l. cbn [length]. f_equal. apply IH. reflexivity.
+Qed.
+
+(* ------------------------------------------------------------------ one wavelength of a compound *)
+(* what is asked of the composition: positive counts and masses, records that serve *)
+Definition cell_ok (D : ndata) (d : dict) : Prop :=
+  d <> [] /\
+  forall p, In p d -> (0 < snd p)%Q /\ (0 < e_mass (nd_env D) (fst p))%Q
+                      /\ rec_okb D (az (fst p)) (aa (fst p)) = true.
+
+Theorem compound_refines : forall D d rho w o ps,
+  wl_pos w -> (0 < rho)%Q -> cell_ok D d ->
+  compound_at D d rho w = Some (o, ps) ->
+  exists l, tab_cell D w d = Some l /\
+            map ev (outs_list o) = outputs (Q2R NAq) l (Q2R rho) (wl_R w).
+Proof.
+  intros D d rho w o ps Hw Hrho [Hne Hd] H. unfold compound_at in H.
+  destruct (all_some (map (atom_piece D w) d)) as [ps'|] eqn:Eps; [|discriminate].
+  cbn [bind] in H. inversion H; subst o ps'. clear H.
+  set (l := map evalC ps). exists l.
+  assert (Hl : tab_cell D w d = Some l).
+  { unfold tab_cell, l. apply (all_some_map_rel (atom_piece D w) (tab_comp D w) evalC d ps Eps).
+    intros p c Hin Hp. apply atom_piece_refines; [exact Hw| |exact Hp]. exact (proj2 (proj2 (Hd p Hin))). }
+  split; [exact Hl|].
+  unfold compound_parts, calc5. rewrite ev_calculate_scattering.
+  (* the five arguments *)
+  assert (Hn : ev (acc_sum (fun c => cq (ce_n c)) ps) = n_total l).
+  { unfold n_total, l. apply ev_acc_sum. intro c. reflexivity. }
+  assert (Hre : ev (EDiv (acc_sum (fun c => EMul (cq (ce_n c)) (ce_re c)) ps) (acc_sum (fun c => cq (ce_n c)) ps)) = b_re l).
+  { cbn [evalR]. rewrite Hn. unfold b_re. f_equal. unfold l. apply ev_acc_sum. intro c. reflexivity. }
+  assert (Him : ev (EDiv (acc_sum (fun c => EMul (cq (ce_n c)) (ce_im c)) ps) (acc_sum (fun c => cq (ce_n c)) ps)) = b_im l).
+  { cbn [evalR]. rewrite Hn. unfold b_im. f_equal. unfold l. apply ev_acc_sum. intro c. reflexivity. }
+  assert (Hss : ev (EDiv (acc_sum (fun c => EMul (cq (ce_n c)) (ce_ss c)) ps) (acc_sum (fun c => cq (ce_n c)) ps)) = sigma_s l).
+  { cbn [evalR]. rewrite Hn. unfold sigma_s. f_equal. unfold l. apply ev_acc_sum. intro c. reflexivity. }
+  rewrite Hre, Him, Hss.
+  assert (HN : ev (EDiv (acc_sum (fun c => cq (ce_n c)) ps)
+                        (EMul (EDiv (EDiv (acc_sum (fun c => EMul (cq (ce_m c)) (cq (ce_n c))) ps) (cq rho)) (cq NAq)) (cq E24)))
+               = model_N (Q2R NAq) (Q2R rho) l).
+  { cbn [evalR]. rewrite Hn. unfold model_N. rewrite !ev_cq. f_equal. f_equal. f_equal. f_equal.
+    unfold l. apply ev_acc_sum. intro c. reflexivity. }
+  rewrite HN, (ev_wl_expr w Hw).
+  (* facts about the cell *)
+  assert (Hfacts : forall c, In c l -> 0 < c_n c /\ 0 < c_m c /\ c_im c <= 0).
+  { intros c Hin. destruct (all_some_in (tab_comp D w) d l Hl c Hin) as (p & Hp & Hc).
+    destruct (Hd p Hp) as (Hcnt & Hmass & Hok).
+    destruct (tab_comp_facts D w p c Hok Hc) as (E1 & E2 & E3).
+    rewrite E1, E2. repeat split; [apply Q2R_pos; exact Hcnt|apply Q2R_pos; exact Hmass|exact E3]. }
+  assert (Hlne : l <> []).
+  { intro E. apply Hne. pose proof (all_some_length _ _ _ Hl) as Hlen. rewrite E in Hlen.
+    destruct d; [reflexivity|discriminate]. }
+  apply calc_is_spec.
+  - exact NA_pos.
+  - apply Q2R_pos. exact Hrho.
+  - apply (wl_R_pos EF_R_pos). exact Hw.
+  - unfold n_total. apply sum_pos; [exact Hlne|]. intros c Hin. exact (proj1 (Hfacts c Hin)).
+  - unfold molar_mass. apply sum_pos; [exact Hlne|]. intros c Hin.
+    destruct (Hfacts c Hin) as (H1 & H2 & _). apply Rmult_lt_0_compat; assumption.
+  - apply sum_nonpos. intros c Hin. destruct (Hfacts c Hin) as (H1 & _ & H3). nra.
+Qed.
